@@ -249,7 +249,11 @@ func (d *Decoder) readTypedList(tag byte) (interface{}, error) {
 			return nil, newCodecError("readTypedList", err)
 		}
 
-		v := itemValue(item, aryType.Elem())
+		if h := holderOf(item); h != nil && !h.complete {
+			return nil, errUnfinishedList
+		}
+
+		v := d.itemValue(item, aryType.Elem())
 		if grow {
 			cv, err := convertValue(v, aryType.Elem())
 			if err != nil {
@@ -313,6 +317,10 @@ func (d *Decoder) readUntypedList(tag byte) (interface{}, error) {
 				break
 			}
 			return nil, newCodecError("readUntypedList", err)
+		}
+
+		if h := holderOf(it); h != nil && !h.complete {
+			return nil, errUnfinishedList
 		}
 
 		if grow {
